@@ -91,6 +91,12 @@ def run_ob(args):
     importlib.import_module(modname)
     ob = OBLIGATIONS[name]
     t0 = time.time()
+    import io, contextlib
+    with contextlib.redirect_stdout(io.StringIO()):
+        return _run_ob(ob, name, tier, seed, t0)
+
+
+def _run_ob(ob, name, tier, seed, t0):
     out = dict(name=name, functions=ob.functions, canary=bool(ob.opts.get('canary')), note=ob.opts.get('note'))
     eps_value = 2.0 ** -52
     try:
